@@ -76,6 +76,7 @@ FUNCS = [
     ("src/group1.c", "rdsparser_group1_parse", "m_group1_parse", []),
     ("src/group4.c", "rdsparser_group4_parse", "m_group4_parse", []),
     ("src/parser.c", "rdsparser_parser_process", "m_parser_process", []),
+    ("src/rdsparser.c", "rdsparser_parse", "m_parse", []),
     ("src/rdsparser.c", "rdsparser_clear", "m_clear", []),
     ("src/rdsparser.c", "rdsparser_set_text_correction", "m_set_text_correction", []),
     ("src/rdsparser.c", "rdsparser_set_text_progressive", "m_set_text_progressive", []),
